@@ -139,9 +139,13 @@ def rule_store_flow(ctx, repo):
     r = F.method(repo, "TDS", "run", TDS)
     g = r.g
     st = r.tests(lambda c: c.strip() == "step_status")
-    if not st:
-        raise AnalysisError("TDS.run: `if step_status` vanished")
     stores = r.calls("dae.store")
+    if not st:
+        if not r.calls("self.itm_step"):
+            raise AnalysisError("TDS.run: step call vanished")
+        ctx.violation("C15.flow", "TDS.run/store-accepted", "dae.store() is no longer conditional on the step status: rows are stored for "
+                      "rejected steps too", r.W(stores[0]) if stores else r.W())
+        return
     ok = bool(stores) and all(g.guarded_by(n, st[0], "true") for n in stores)
     ctx.check(ok, "C15.flow", "TDS.run/store-accepted", "one row per accepted step only", "rows stored for rejected steps (or none stored)", r.W())
     t1 = [tn for tn in g.nodes() if g.data(tn)["kind"] == "test" and Q.match("config.save_every == 1", g.data(tn)["ast"].test)]
